@@ -151,6 +151,8 @@ def run(case, max_steps=30000):
             async def call(i, c, fresh=False):
                 rec = callers[i]
                 arg = Arg(i, c['name'])
+                for _ in range(c.get('hops', 0)):      # the calling task reaches the batcher some loop iterations later
+                    await aio.sleep(0)
                 rec['arrived'] = sim.now
                 rec['seq'] = sum(1 for r in callers if r['arrived'] is not None) - 1
                 kw = {} if c['key'] is None else {'key': c['key']}
